@@ -1,7 +1,177 @@
-import KitModel.Go.Prelude
-/-! Driver for property C12: `kitdrv C12` reads op lines on stdin, one answer line per input line. -/
+import KitModel.Runner
+import Std.Data.HashSet
+/-!
+Driver for property C12: `kitdrv C12` decides *trace inclusion*.  The harness sends the observable
+event log of one real execution (`begin …`, then one `ev …` per line, then `end`); the driver keeps
+the set of model states compatible with the log so far, closed under internal (τ) steps, and
+answers `ok n=<states>` or `reject …` (no model state can perform the event).
+
+Observable events → candidate labels:
+  add k=<n> ok=<0|1> | ac.call | ac.ok | ac.rej | run.call | run.rej | run.ret errs=<e,…> |
+  close.call | close.ret errs=<e,…> | r.start i= | r.done i= | r.ret i= v=<nil|c|e<n>> |
+  c.start j= | c.ret j= v=<nil|e<n>> | fatal | tick d= | pcancel
+`run.ret`/`close.ret` carry the flattened `errors.Join` list; it must equal the model's list.
+-/
 namespace Driver.C12
+open Kit Kit.Runner
+
+/-- closure of a state set under τ steps (worklist; `seen` is the result). -/
+partial def closeUnder {σ α : Type} [BEq σ] [Hashable σ] (step : σ → α → Option σ) (taus : σ → List α)
+    (seen : Std.HashSet σ) (work : List σ) : Std.HashSet σ :=
+  match work with
+  | [] => seen
+  | s :: rest =>
+    let (seen', new) := (taus s).foldl (fun (acc : Std.HashSet σ × List σ) a =>
+      match step s a with
+      | some s' => if acc.1.contains s' then acc else (acc.1.insert s', s' :: acc.2)
+      | none => acc) (seen, [])
+    closeUnder step taus seen' (new ++ rest)
+
+def closure {σ α : Type} [BEq σ] [Hashable σ] (step : σ → α → Option σ) (taus : σ → List α)
+    (ss : List σ) : List σ :=
+  let seen := ss.foldl (fun acc s => acc.insert s) (Std.HashSet.emptyWithCapacity 64)
+  (closeUnder step taus seen seen.toList).toList
+
+/-- one observable event: every state may try each candidate label; `pre` filters states first. -/
+def advance {σ α : Type} [BEq σ] [Hashable σ] (step : σ → α → Option σ) (taus : σ → List α)
+    (ss : List σ) (pre : σ → Bool) (cands : List α) : List σ :=
+  let nexts := ss.foldl (fun acc s =>
+    if pre s then cands.foldl (fun acc a => match step s a with
+      | some s' => s' :: acc
+      | none => acc) acc else acc) []
+  closure step taus nexts
+
+def parseRet (v : String) : Option Ret :=
+  if v == "nil" then some .nil
+  else if v == "c" then some .canceled
+  else if v.startsWith "e" then (v.drop 1).toString.toNat?.map Ret.err
+  else none
+
+def parseCRet (v : String) : Option CRet :=
+  if v == "nil" then some none
+  else if v.startsWith "e" then (v.drop 1).toString.toNat?.map some
+  else none
+
+inductive World where
+  | none
+  | rm (ss : List RM)
+  | rcm (cfg : Cfg) (ss : List RCM)
+  | dead                       -- an event of this trace was rejected
+
+structure St where
+  w : World := .none
+
+def rcmEvent (l : Line) : Option ((RCM → Bool) × List Label) :=
+  let all : RCM → Bool := fun _ => true
+  match l.get? "e" with
+  | some "add" => do
+    let k ← l.nat? "k"; let ok ← l.nat? "ok"
+    pure (all, [.add k (ok == 1)])
+  | some "ac.call" => some (all, [.acCall])
+  | some "ac.ok" => some (all, [.acOk])
+  | some "ac.rej" => some (all, [.acRejectEarly, .acRejectLate])
+  | some "run.call" => some (all, [.runCall])
+  | some "run.rej" => some (all, [.runRejected])
+  | some "run.ret" => do
+    let es ← l.nats? "errs"
+    pure (fun s => s.retErr == es, [.runRet])
+  | some "close.call" => some (all, [.closeCall])
+  | some "close.ret" => do
+    let es ← l.nats? "errs"
+    pure (fun s => s.retErr == es, [.closeRet])
+  | some "r.start" => do let i ← l.nat? "i"; pure (all, [.inner (.start i)])
+  | some "r.done" => do let i ← l.nat? "i"; pure (all, [.inner (.ctxDone i)])
+  | some "r.ret" => do
+    let i ← l.nat? "i"; let v ← (l.get? "v").bind parseRet
+    pure (all, [.inner (.ret i v)])
+  | some "c.start" => do let j ← l.nat? "j"; pure (all, [.cstart j])
+  | some "c.ret" => do
+    let j ← l.nat? "j"; let v ← (l.get? "v").bind parseCRet
+    pure (all, [.cret j v])
+  | some "fatal" => some (all, [.ffire])
+  | some "tick" => do let d ← l.nat? "d"; pure (all, [.tick d])
+  | some "pcancel" => some (all, [.inner .parentCancel])
+  | _ => none
+
+def rmEvent (l : Line) : Option ((RM → Bool) × List RLabel) :=
+  let all : RM → Bool := fun _ => true
+  match l.get? "e" with
+  | some "add" => do
+    let k ← l.nat? "k"; let ok ← l.nat? "ok"
+    pure (all, [.add k (ok == 1)])
+  | some "run.call" => some (all, [.runCall])
+  | some "run.rej" => some (all, [.runRejected])
+  | some "run.ret" => do
+    let es ← l.nats? "errs"
+    pure (fun s => s.errs == es, [.runRet])
+  | some "r.start" => do let i ← l.nat? "i"; pure (all, [.start i])
+  | some "r.done" => do let i ← l.nat? "i"; pure (all, [.ctxDone i])
+  | some "r.ret" => do
+    let i ← l.nat? "i"; let v ← (l.get? "v").bind parseRet
+    pure (all, [.ret i v])
+  | some "pcancel" => some (all, [.parentCancel])
+  | _ => none
+
+def showRPc : RPc → String
+  | .idle => "i" | .started => "s" | .returned _ => "r" | .delivered _ => "d" | .done _ => "D"
+def showCPc : CPc → String
+  | .idle => "i" | .started => "s" | .returned _ => "r" | .collected _ => "C"
+def showFPc : FPc → String
+  | .idle => "i" | .armed _ => "a" | .parked _ => "p" | .willFire => "w" | .ready => "r" | .collected => "C"
+
+def showRM (s : RM) : String :=
+  s!"[run={s.running} pc={repr s.runPc} sp={s.spawned} col={s.collected} pcs={String.join (s.pcs.map showRPc)} errs={s.errs} canc={s.cancelled}]"
+
+def showRCM (s : RCM) : String :=
+  s!"[opc={s.opc.rank} run={s.running} closing={s.closing} closed={s.closed} stopped={s.stopped} cl={s.cl0}/{s.cl1}/{s.cl2} ac={s.ac0}/{s.ac1} cp={String.join (s.cpcs.map showCPc)} nc={s.nclosers} csp={s.cspawned} ccol={s.ccollected} cfs={s.cfs} f={showFPc s.fpc} now={s.now} ret={s.retErr} in={showRM s.inner}]"
+
+def summary (xs : List String) : String :=
+  " | ".intercalate (xs.take 3)
+
+def step (st : St) (line : String) : St × String :=
+  let l := parseLine line
+  match l.op with
+  | "begin" =>
+    match l.get? "mode" with
+    | some "rm" =>
+      let ss := closure RM.step RM.taus [({} : RM)]
+      ({ w := .rm ss }, s!"ok n={ss.length}")
+    | some "rcm" =>
+      let grace : Option Nat := (l.get? "grace").bind String.toNat?
+      let recheck := (l.nat? "recheck").getD 1 == 1
+      let cfg : Cfg := { grace := grace, recheck := recheck }
+      let ss := closure (RCM.step cfg) RCM.taus [({} : RCM)]
+      ({ w := .rcm cfg ss }, s!"ok n={ss.length}")
+    | _ => ({ w := .dead }, "error bad-mode")
+  | "ev" =>
+    match st.w with
+    | .none => (st, "error no-trace")
+    | .dead => (st, "skip")
+    | .rm ss =>
+      match rmEvent l with
+      | none => ({ w := .dead }, s!"error bad-event {line.trimAscii.toString}")
+      | some (pre, cands) =>
+        let ss' := advance RM.step RM.taus ss pre cands
+        if ss'.isEmpty then
+          ({ w := .dead }, s!"reject n={ss.length} states={summary (ss.map showRM)}")
+        else ({ w := .rm ss' }, s!"ok n={ss'.length}")
+    | .rcm cfg ss =>
+      match rcmEvent l with
+      | none => ({ w := .dead }, s!"error bad-event {line.trimAscii.toString}")
+      | some (pre, cands) =>
+        let ss' := advance (RCM.step cfg) RCM.taus ss pre cands
+        if ss'.isEmpty then
+          ({ w := .dead }, s!"reject n={ss.length} states={summary (ss.map showRCM)}")
+        else ({ w := .rcm cfg ss' }, s!"ok n={ss'.length}")
+  | "end" =>
+    match st.w with
+    | .dead => ({ w := .none }, "skip")
+    | .none => (st, "error no-trace")
+    | .rm ss => ({ w := .none }, s!"ok n={ss.length}")
+    | .rcm _ ss => ({ w := .none }, s!"ok n={ss.length}")
+  | _ => (st, "error unknown-op")
+
 def main (_args : List String) : IO UInt32 := do
-  IO.eprintln "kitdrv: C12 has no model driver yet"
-  return 2
+  lineLoop step {}
+  return 0
 end Driver.C12
